@@ -13,7 +13,7 @@ EVIDENCE = dict(
     checker_cmd="lake build D42.Props.C05 d42model && lake env lean <#print axioms audit>",
     trusted=["Lean kernel; standard axioms", "substitution + validator models tied to the code by this run's correspondences"],
     rule="for each successful S % v (plain v): probes w = generated from S % v, boundary values of S % v, perturbations of v and "
-         "of generated values; checks validate(S % v, w) ok ==> validate(S, w) ok")
+         "of generated values; checks validate(S % v, w) ok ==> validate(S, w) ok; thorough tier adds every third schema of the small scope x 57 substitution values with the narrowing oracle")
 
 
 def oracle(ctx, cases):
@@ -72,6 +72,10 @@ def run(ctx):
         ctx.breakage("correspondence", "substitution outcome differs between model and code",
                      schema=repr(c.schema), value=repr(c.value), detail=detail, request=c.req)
     ctx.cov["corr_disagreements"] = len(dis)
+    if not ctx.quick():
+        # thorough: the whole small scope of substitutions with the narrowing oracle on every successful one
+        from .. import smallscope
+        smallscope.subst_scope(ctx, oracle=oracle, stride=3)
     for c in [c for c in cases if c.kind == "ok"][:200:40]:
         ctx.sample({"schema": repr(c.schema), "value": repr(c.value), "result": repr(c.result)[:300]})
 
